@@ -154,7 +154,7 @@ func Forany[T any](pred func(T) bool, s []T) bool {
 }
 
 func PushLast[T any](elem T, s []T) []T {
-	return append(s, elem)
+	return append(s[:len(s):len(s)], elem)
 }
 
 func PushHead[T any](elem T, s []T) []T {
